@@ -72,10 +72,11 @@ func (f rfacts) String() string {
 }
 
 type addrAnalysis struct {
-	c     *Ctx
-	r     *Report
-	kt    *ssaKind
-	depth int
+	c        *Ctx
+	r        *Report
+	kt       *ssaKind
+	depth    int
+	selField string // set by proveField: the fact is wanted for this member of the struct value
 }
 
 type ssaKind struct {
@@ -228,10 +229,27 @@ func (a *addrAnalysis) prove(fn *ssa.Function, v ssa.Value, at ssa.Instruction, 
 	return a.proveAt(fn, v, at, nil, want, depth, seen)
 }
 
+// proveField: as prove, for field `field` of the struct value v (a fieldInfo handed over whole: its value member).
+func (a *addrAnalysis) proveField(fn *ssa.Function, v ssa.Value, field string, at ssa.Instruction, want rfact, depth int, seen map[string]bool) (bool, string) {
+	save := a.selField
+	a.selField = field
+	defer func() { a.selField = save }()
+	return a.proveAt(fn, v, at, nil, want, depth, seen)
+}
+
 // proveAt: as prove, with extra conditions known on the edge leaving `at`'s block (used for phi edges).
 func (a *addrAnalysis) proveAt(fn *ssa.Function, v ssa.Value, at ssa.Instruction, extra []Cond, want rfact, depth int, seen map[string]bool) (bool, string) {
+	selField := a.selField
+	a.selField = "" // applies to this value only, not to what is proved on the way
+	defer func() { a.selField = selField }()
+	applySel := func(n *nf) *nf {
+		if selField != "" {
+			return n.sel(selField)
+		}
+		return n
+	}
 	// 0. a value merged from several paths: each feasible incoming edge must establish the fact
-	if phi, ok := v.(*ssa.Phi); ok && depth < 6 && len(extra) == 0 {
+	if phi, ok := v.(*ssa.Phi); ok && depth < 6 && len(extra) == 0 && selField == "" {
 		kt, kinds := reflectKind(a.c)
 		var notes []string
 		all := true
@@ -263,6 +281,9 @@ func (a *addrAnalysis) proveAt(fn *ssa.Function, v ssa.Value, at ssa.Instruction
 	}
 	// 1. local conditions on the value itself
 	local := a.localFactsX(fn, v, at, extra)
+	if selField != "" {
+		local = localInfo{facts: rfacts{}} // conditions on the struct are not conditions on its member
+	}
 	strengthen := func(f rfacts) rfacts {
 		out := rfacts{}
 		for k := range f {
@@ -289,7 +310,7 @@ func (a *addrAnalysis) proveAt(fn *ssa.Function, v ssa.Value, at ssa.Instruction
 	for _, p := range fn.Params {
 		params = append(params, p)
 	}
-	n := a.nfAt(b, v, at)
+	n := applySel(a.nfAt(b, v, at))
 	if strengthen(factsOfNF(n, nil))[want] {
 		return true, "by construction: " + clip(n.String(), 160) + localNote(local)
 	}
@@ -303,6 +324,11 @@ func (a *addrAnalysis) proveAt(fn *ssa.Function, v ssa.Value, at ssa.Instruction
 		}
 		b2 := newNF(a.c)
 		b2.Role(p, "P")
+		infoParam := isNamed(p.Type(), modPath, "fieldInfo")
+		if infoParam {
+			// the field's info handed over whole: the contract is on its value member
+			b2.bind[p] = &nf{op: "struct", name: "fieldInfo", fields: map[string]*nf{"value": {op: "role", name: "P"}}}
+		}
 		// a spilled parameter: bind the local it is copied into as well
 		Instrs(fn, false, func(in ssa.Instruction) {
 			if st, ok := in.(*ssa.Store); ok && st.Val == ssa.Value(p) {
@@ -314,12 +340,12 @@ func (a *addrAnalysis) proveAt(fn *ssa.Function, v ssa.Value, at ssa.Instruction
 						}
 					}
 					if onlyThis {
-						b2.bind[al] = &nf{op: "role", name: "P"}
+						b2.bind[al] = b2.bind[p]
 					}
 				}
 			}
 		})
-		n2 := a.nfAt(b2, v, at)
+		n2 := applySel(a.nfAt(b2, v, at))
 		if !strings.Contains(n2.String(), "$P") {
 			continue
 		}
@@ -352,7 +378,13 @@ func (a *addrAnalysis) proveAt(fn *ssa.Function, v ssa.Value, at ssa.Instruction
 			okSite := false
 			whySite := ""
 			for _, h := range hyps {
-				ok, why := a.prove(cs.Parent(), arg, cs.(ssa.Instruction), h, depth+1, seen)
+				var ok bool
+				var why string
+				if infoParam {
+					ok, why = a.proveField(cs.Parent(), arg, "value", cs.(ssa.Instruction), h, depth+1, seen)
+				} else {
+					ok, why = a.prove(cs.Parent(), arg, cs.(ssa.Instruction), h, depth+1, seen)
+				}
 				if ok {
 					okSite = true
 					whySite = string(h) + " " + why
